@@ -51,6 +51,8 @@ impl Path {
     /// commands with an appropriate number of LineTo commands
     /// so that the error is not greater than `tolerance`.
     pub fn flatten(&self, tolerance: f32) -> Path {
+        // lyon_geom asserts that the tolerance is at least its f32 EPSILON (1e-4) squared
+        let tolerance = tolerance.max(1e-8);
         let mut cur_pt = None;
         // the start of the current subpath: where Close returns to
         let mut start_pt = None;
